@@ -176,3 +176,27 @@ Theorem src_format_loop_week_tie : forall strftime_o al tm fs unix fmt r fuel,
   sl_format (format_tm strftime_o) src_ToWeek fuel fmt fs (al_cs al) (al_off al) (al_abbr al) tm unix = OK r.
 Proof. exact SourceFmtLoopSrcProofs.sl_format_src_tie. Qed.
 Print Assumptions src_format_loop_week_tie.
+
+From CCTZ Require Import FinishZone SourceFmtWeekCor.
+(* ... with the representability side conditions DISCHARGED from validity of the civil day (SourceFmtWeekCor.v) *)
+Theorem src_to_week_valid : forall cd ws,
+  valid_fields cd = true -> (fhh cd = 0 /\ fmm cd = 0 /\ fss cd = 0) -> int64 (fy cd) -> 0 <= ws <= 6 ->
+  exists w, to_week cd ws = OK w /\ sw_ToWeek s64_fuel cd ws = OK w /\ 0 <= w <= 53.
+Proof. exact SourceFmtWeekCor.src_to_week_valid. Qed.
+Print Assumptions src_to_week_valid.
+Theorem src_from_week_valid : forall week_num ws year tm,
+  int64 year -> 0 <= week_num <= 53 -> 0 <= ws <= 6 -> 0 <= tm_wday tm <= 6 ->
+  from_week week_num ws year tm = OK (fw_expected week_num ws year tm) /\
+  sw_FromWeek s64_fuel week_num ws year (tm_sec tm) (tm_min tm) (tm_hour tm) (tm_mday tm) (tm_mon tm) (tm_year tm)
+    (tm_wday tm) (tm_yday tm) (tm_isdst tm) = OK (from_week_result year tm (fw_expected week_num ws year tm)).
+Proof. exact SourceFmtWeekCor.src_from_week_valid. Qed.
+Print Assumptions src_from_week_valid.
+Theorem src_format_loop_week_valid : forall strftime_o al tm fs unix fmt r fuel,
+  valid_fields (al_cs al) = true -> int64 (fy (al_cs al)) ->
+  to_tm al = OK tm ->
+  format_impl strftime_o fmt al fs unix = OK r ->
+  bytes_ok fmt -> ~ In 0 fmt -> ~ In 0 (al_abbr al) -> 0 <= fs < 10 ^ 15 -> blen fmt < 2 ^ 62 ->
+  (3 * length fmt + 30 <= fuel)%nat ->
+  sl_format (format_tm strftime_o) src_ToWeek fuel fmt fs (al_cs al) (al_off al) (al_abbr al) tm unix = OK r.
+Proof. exact SourceFmtWeekCor.sl_format_src_tie_valid. Qed.
+Print Assumptions src_format_loop_week_valid.
